@@ -220,6 +220,9 @@ func runC15(c *Ctx) {
 		}
 	})
 	closeDrainsRule(c, "R-C15-CLOSESEQ")
+	// "Close returns, the background goroutines have stopped": neither stop handshake is performed with a
+	// mutex held that the goroutine being stopped may be waiting for (shared with C08)
+	importRules(c, runC08, map[string]string{"R-C08-NOBLOCK": "R-C15-CLOSESEQ"})
 	c.Group("R-C15-CLOSESEQ", "defaultPolicy.Close", func() {
 		fn := P.Fn("ristretto", "defaultPolicy", "Close")
 		L.Analysed(fname(fn))
